@@ -3,4 +3,4 @@ From MptV Require Import Base.Mem C10.ConfigModel C10.ConfigSpec.
 Require Import ExtrOcamlBasic.
 Extraction "c10_model.ml" path_init path_set path_next path_last path_del path_add path_post path_walk
   str_path str_key cstep rstep sstep slookup pstep pwalk astep
-  wstep xstep wsstep xsstep get_view squery del_path del_key str_key_end node_at item_at.
+  wstep xstep wsstep xsstep get_view squery del_path del_key str_key_end node_at item_at meta_set_cell cell_text cell_spec.
